@@ -190,4 +190,53 @@ theorem range_prefix_counterexample :
     keysInRange d 1 1 (minTKey 177) (maxTKey 177) raw = some [] := by
   decide
 
+/-- invariant of `DeleteRange`'s batching loop: nothing is dropped, and the open batch holds the remainder -/
+theorem batch_inv (B : Nat) (hB : 0 < B) (n : Nat) :
+    let s := (List.range n).foldl (fun s _ => Range.batchStep B s) (⟨0, 0, 0⟩ : Range.Batching)
+    s.numKV = n ∧ s.committed + s.pending = n ∧ s.pending = n % B := by
+  induction n with
+  | zero => simp [Nat.zero_mod]
+  | succ n ih =>
+    simp only [List.range_succ, List.foldl_append, List.foldl_cons, List.foldl_nil]
+    obtain ⟨h1, h2, h3⟩ := ih
+    generalize (List.range n).foldl (fun s _ => Range.batchStep B s) (⟨0, 0, 0⟩ : Range.Batching) = s at *
+    unfold Range.batchStep
+    simp only [Gen.deleteRangeFlushesAfterAdd, ↓reduceIte]
+    rw [h1]
+    by_cases hm : (n + 1) % B = 0
+    · simp only [hm, ↓reduceIte]
+      exact ⟨trivial, by omega, trivial⟩
+    · simp only [hm, ↓reduceIte]
+      refine ⟨trivial, by omega, ?_⟩
+      rw [h3]
+      have hlt : n % B < B := Nat.mod_lt _ hB
+      have hB2 : 2 ≤ B := by
+        rcases Nat.lt_or_ge B 2 with h | h
+        · have : B = 1 := by omega
+          subst this; exact absurd (Nat.mod_one _) hm
+        · exact h
+      have e : (n + 1) % B = (n % B + 1) % B := by
+        rw [Nat.add_mod, Nat.mod_eq_of_lt (show 1 < B by omega)]
+      by_cases hs : n % B + 1 < B
+      · rw [e, Nat.mod_eq_of_lt hs]
+      · have : n % B + 1 = B := by omega
+        rw [e, this, Nat.mod_self] at hm
+        exact absurd rfl hm
+
+/-- **every delete of a `DeleteRange` reaches a committed batch**, for every number of keys in the range —
+    exact multiples of the batch size included -/
+theorem deleteRange_commits_all (n : Nat) : Range.deleteRangeCommitted Gen.deleteRangeBatchSize n = n := by
+  have hB : 0 < Gen.deleteRangeBatchSize := by decide
+  have := batch_inv Gen.deleteRangeBatchSize hB n
+  simp only at this
+  obtain ⟨h1, h2, h3⟩ := this
+  unfold Range.deleteRangeCommitted
+  simp only
+  rw [h1]
+  split
+  · omega
+  · rename_i h
+    have : n % Gen.deleteRangeBatchSize = 0 := by omega
+    omega
+
 end Dvid.Props.C05
